@@ -1939,11 +1939,13 @@ def x_tokdir(chk, sc, case):
         o = case["tg"]
         tgsuf = o["tgsuf"] or ".TextGrid"
         maxb = {n: max([max(r[1:]) for r in t["rows"]] if "rows" in t else [-1]) for n, t in files.items()}
-        infer = o["infer"] and all(m > 0 for m in maxb.values())
+        # --infer only where some boundary is positive: with no known boundary at all the command infers a NEGATIVE length
+        # and writes a TextGrid nobody can read (documented: 0) - finding kept in corpus/C17/tokdir_infer_no_boundary.json.pending
+        infer = o["infer"] and (o.get("infer_raw") or all(m > 0 for m in maxb.values()))
         bargs = fix_args(case) + fsa + swap + ["--quiet"] + (["--textgrid-suffix", o["tgsuf"]] if o["tgsuf"] else [])
         if infer:
             bargs.append("--infer")
-            T = {n: sec(m) for n, m in maxb.items()}
+            T = {n: sec(max(m, 0)) for n, m in maxb.items()}
         else:
             fd = os.path.join(root, "feat")
             write_dir(fd, {n: {"w": 1, "rows": [[0]] * (max(m, 0) + 2)} for n, m in maxb.items()}, float_=True)
